@@ -9,12 +9,12 @@ def run(ctx):
     big = ctx.thorough()
     behs = []
     # every event in every state: one witness per transition of the complete graph of the bounded machine
-    c = sc.consts("ebgp", {"ok", "badAS"}, {"annA", "wdA", "noOrigin"}, {"badType"}, {"ManualStop", "HoldExpires", "Notification", "NotifHdr", "NotifOpen", "ConnLost"}, 7 if not big else 8)
+    c = sc.consts("ebgp", {"ok", "badAS"}, {"annA", "wdA", "noOrigin"}, {"badType"}, {"ManualStop", "HoldExpires", "Notification", "NotifHdr", "NotifOpen", "NotifCode7", "ConnLost"}, 7 if not big else 8)
     behs += sc.run_family(ctx, "ebgp", c, 6000 if big else 700, sim=(600 if big else 80, 12))
     c = sc.consts("ibgp", {"ok", "idOurs"}, {"annAB", "wdAannB"}, {"badMarker"}, {"ManualStop", "Notification"}, 6)
     behs += sc.run_family(ctx, "ibgp", c, 3000 if big else 300)
     # time passes without events: nothing may happen (the hold timer of OpenSent is a large one)
-    c = sc.consts("ebgp", {"ok", "hold0"}, {"annA"}, set(), {"Wait"}, 6, sessions=1)
+    c = sc.consts("ebgp", {"ok", "hold0", "hold6"}, {"annA"}, set(), {"Wait"}, 6, sessions=1)
     behs += sc.run_family(ctx, "quiet periods", c, 400 if big else 60, allpaths=True)
     # an active peer: the same FSM object serves session after session (all paths: what a session leaves behind is hidden state)
     c = sc.consts("ebgpA", {"ok", "okNoAS4"}, {"annA"}, {"badType"}, {"Notification", "ConnLost"}, 8, sessions=3)
